@@ -268,7 +268,7 @@ func (w *world) await(want snapshot) (snapshot, []string, bool) {
 	lastChange := time.Now()
 
 	for n := 0; ; n++ {
-		quiet := brokersQuiet()
+		quiet := w.brokersQuiet()
 		got := w.snap()
 
 		f := diff(got, want)
@@ -306,17 +306,31 @@ var reBrokerFrame = regexp.MustCompile(
 // except those parked in the harness network (SendMessageFunc). The continuation of a sender after its
 // request was answered (e.g. the reset of sendFailureCount after a good send)
 // has no observable end; without this the next step could overtake it.
-func brokersQuiet() bool {
+func (w *world) brokersQuiet() bool {
 	buf := make([]byte, 1<<20)
 	buf = buf[:runtime.Stack(buf, true)]
 
+	parked := 0
+
 	for _, g := range bytes.Split(buf, []byte("\n\n")) {
-		if reBrokerFrame.Match(g) && !bytes.Contains(g, []byte("internal/handover.(*world).send(")) {
+		if !reBrokerFrame.Match(g) {
+			continue
+		}
+
+		if !bytes.Contains(g, []byte("internal/handover.(*world).send(")) {
 			return false
 		}
+
+		parked++
 	}
 
-	return true
+	// a goroutine whose request was answered but which has not run since
+	// still stands in send(): it is not parked, its continuation is due
+	w.mu.Lock()
+	n := len(w.inflight)
+	w.mu.Unlock()
+
+	return parked <= n
 }
 
 func (w *world) goCall(f func()) {
